@@ -1101,14 +1101,33 @@ class Desugar(ast.NodeTransformer):
                         out.append(node)
                     i += 1
                     continue
+            # D1a: g = (E for T in C if P) ; v = next(g, None)   (g used only there)   ->   v = next((E for T in C if P), None)
+            if isinstance(st, ast.Assign) and len(st.targets) == 1 and isinstance(st.value, ast.Call) and isinstance(st.value.func, ast.Name) and st.value.func.id == 'next' \
+                    and len(st.value.args) == 2 and isinstance(st.value.args[0], ast.Name) and getattr(self, 'loads', None) is not None \
+                    and self.loads.get(st.value.args[0].id, 0) == 1 and self.stores.get(st.value.args[0].id, 0) == 1 and out \
+                    and isinstance(out[-1], ast.Assign) and len(out[-1].targets) == 1 and isinstance(out[-1].targets[0], ast.Name) \
+                    and out[-1].targets[0].id == st.value.args[0].id and isinstance(out[-1].value, ast.GeneratorExp):
+                st.value.args[0] = out[-1].value
+                out.pop()
             # D1: v = next((E for T in C if P), None) ; if v is None: RAISE   ->  for T in C: if P: v = E; break  else: RAISE
             if isinstance(st, ast.Assign) and len(st.targets) == 1 and isinstance(st.targets[0], ast.Name) and isinstance(st.value, ast.Call) \
                     and isinstance(st.value.func, ast.Name) and st.value.func.id == 'next' and len(st.value.args) == 2 \
                     and isinstance(st.value.args[0], ast.GeneratorExp) and len(st.value.args[0].generators) == 1 \
                     and isinstance(st.value.args[1], ast.Constant) and st.value.args[1].value is None:
                 v = st.targets[0].id
-                ge = st.value.args[0]
+                ge = copy.deepcopy(st.value.args[0])
                 g = ge.generators[0]
+                # the generator's own variables must not collide with the function's names once they become loop variables
+                gnames = {x.id for x in ast.walk(g.target) if isinstance(x, ast.Name)}
+                if v in gnames or (getattr(self, 'stores', None) is not None and any(self.stores.get(nm, 0) > 1 for nm in gnames)):
+                    ren_ = {nm: f'_{nm}_it' for nm in gnames}
+
+                    class _Rg(ast.NodeTransformer):
+                        def visit_Name(self_, n):
+                            return ast.copy_location(ast.Name(id=ren_[n.id], ctx=n.ctx), n) if n.id in ren_ else n
+                    ge.elt = _Rg().visit(ge.elt)
+                    g.target = _Rg().visit(g.target)
+                    g.ifs = [_Rg().visit(c) for c in g.ifs]
                 assign = ast.Assign(targets=[ast.Name(id=v, ctx=ast.Store())], value=ge.elt)
                 inner: List[ast.stmt] = [assign, ast.Break()]
                 test: Optional[ast.AST] = None
